@@ -187,6 +187,8 @@ struct Polled
     in_tree: bool,
     /// deadline passed: only reactors registered later may still be told (N4)
     closed: bool,
+    /// the run (issuer, run number) whose command caused the removal / despawn
+    sender: (u8, u32),
 }
 
 #[derive(Clone, Debug)]
@@ -643,7 +645,8 @@ impl<'a> Checker<'a>
         self.stats.polled_events += 1;
         let in_tree = self.tree_depth > 0;
         if in_tree { self.stats.polled_in_tree += 1; }
-        self.polled.push(Polled { kind, ent, must, extra, delivered: Vec::new(), in_tree, closed: false });
+        let sender = self.sender;
+        self.polled.push(Polled { kind, ent, must, extra, delivered: Vec::new(), in_tree, closed: false, sender });
     }
 
     fn despawn_ent(&mut self, e: EntId)
@@ -840,6 +843,28 @@ impl<'a> Checker<'a>
     }
 
     /// Turns a pending event's obligation for `inst` into a delivery.
+    /// C12 for removals: one run removed the same component from two entities, `inst` must react to both — it must be told
+    /// about the earlier removal first (a poll that sees the later event has seen the earlier one, and reactions are queued
+    /// entity by entity in event order).
+    fn removal_order_ok(&self, i: usize, inst: Inst) -> Option<EntId>
+    {
+        let later = &self.polled[i];
+        let PKind::Removal(c) = later.kind else { return None };
+        // events on the same entity are indistinguishable in the trace (remove, re-insert, remove): the attribution of a reaction
+        // to one of them is a guess, so only events that are the sole pending one for their entity are judged
+        let unique = |k: usize| !self.polled.iter().enumerate().any(|(x, p)| x != k && !p.closed && p.ent == self.polled[k].ent && matches!(p.kind, PKind::Removal(c2) if c2 == c));
+        if !unique(i) { return None; }
+        for j in 0..i
+        {
+            if !unique(j) { continue; }
+            let e = &self.polled[j];
+            if e.closed || e.sender != later.sender || e.ent == later.ent || e.sender.0 == 0xFE { continue; }
+            if !matches!(e.kind, PKind::Removal(c2) if c2 == c) { continue; }
+            if e.must.iter().any(|(m, _)| *m == inst) && self.removal_listeners_now(e.ent, c).contains(&inst) { return Some(e.ent); }
+        }
+        None
+    }
+
     fn take_polled(&mut self, i: usize, inst: Inst) -> Delivery
     {
         self.polled[i].delivered.push(inst);
@@ -1048,7 +1073,18 @@ impl<'a> Checker<'a>
                         d = Some(p);
                     }
                 }
-                if d.is_none() { if let Some(pi) = self.find_polled(inst, &s) { d = Some(self.take_polled(pi, inst)); } }
+                if d.is_none()
+                {
+                    if let Some(pi) = self.find_polled(inst, &s)
+                    {
+                        if let Some(earlier) = self.removal_order_ok(pi, inst)
+                        {
+                            let (a, b) = (self.real(earlier), self.real(self.polled[pi].ent));
+                            fail!(self, "C12", "removal-order-violated", &["C09"], "instance {inst} reacted to the removal on {b:#x} before the removal on {a:#x}, which the same run caused earlier and which it must also react to");
+                        }
+                        d = Some(self.take_polled(pi, inst));
+                    }
+                }
                 if d.is_none()
                 {
                     // a delivery for another registration of the same function served by this instance's system?
